@@ -221,19 +221,34 @@ def tla_str(s):
     return '"' + s.replace('\\', '\\\\').replace('"', '\\"') + '"'
 
 
+def visible_ev(prim, args):
+    """visible energy (eV) released by a primitive call whose first argument is a literal; -1 when it is not fixed
+    (beta spectra, non-literal arguments)"""
+    if prim in ('beta', 'beta1', 'beta2', 'beta_1fu', 'particle') or not args or args[0] == '?':
+        return -1
+    e = Decimal(args[0])
+    if prim == 'pair':
+        e += Decimal('1.022')          # kinetic energy of the pair + the annihilation quanta of the positron
+    if prim == 'positron':
+        e += Decimal('1.022')
+    if prim == 'PbAtShell':
+        e = e / 1000                   # hole energy in keV
+    return int((e * 1000000).to_integral_value())
+
+
 def scheme_to_tla(key, sch):
     es = []
     for e in sch['edges']:
         items = []
         for it in e['items']:
             if it[0] == 'draw':
-                items.append('[k |-> "draw", s |-> %s, p |-> "", a |-> <<>>]' % tla_str(it[1]))
+                items.append('[k |-> "draw", s |-> %s, p |-> "", a |-> <<>>, ev |-> 0]' % tla_str(it[1]))
             elif it[0] == 'loop':
                 # p = number of deviates per trial of the opaque rejection loop (5 in the angular-correlation blocks)
-                items.append('[k |-> "loop", s |-> "", p |-> "%s", a |-> <<>>]' % ('2' if it[1] == 2 else '5'))
+                items.append('[k |-> "loop", s |-> "", p |-> "%s", a |-> <<>>, ev |-> 0]' % ('2' if it[1] == 2 else '5'))
             else:
-                items.append('[k |-> "call", s |-> "", p |-> %s, a |-> <<%s>>]' % (
-                    tla_str(it[1]), ', '.join(tla_str(canon_lit(a)) for a in it[2])))
+                items.append('[k |-> "call", s |-> "", p |-> %s, a |-> <<%s>>, ev |-> %d]' % (
+                    tla_str(it[1]), ', '.join(tla_str(canon_lit(a)) for a in it[2]), visible_ev(it[1], it[2])))
         if e['site'] is None:
             lo, hi, site = (0, 0), (1000000, 0), ''
         else:
@@ -301,12 +316,14 @@ def main():
         f.write('------------------------------ MODULE SchData ------------------------------\n')
         f.write('(* GENERATED by tools/gen_spec_data.py from the Decay0 2020-04-20 reference text - do not edit. *)\n')
         f.write('(* Scheme graphs: edge = [s, d, site, lo, hi, items]; d = -1 is Return; lo/hi are <<a,b>> = a*1e-6 + b*1e-12; *)\n')
-        f.write('(* item = [k in {"draw","call","loop"}, s = draw site, p = primitive, a = literal arguments ("?" = not a literal)]. *)\n')
+        f.write('(* item = [k in {"draw","call","loop"}, s = draw site, p = primitive, a = literal arguments ("?" = not a literal), *)\n')
+        f.write('(*         ev = visible energy released by the call in eV (-1: not fixed)].                                        *)\n')
         f.write('EXTENDS Integers, Sequences, TLC\n\n')
         f.write('SchEdges ==\n  ')
         f.write('\n  @@ '.join(scheme_to_tla(k, s) for k, s in sorted(schemes.items())))
         f.write('\n\nSchNames == DOMAIN SchEdges\n')
         f.write('LowNames == {%s}\n' % ', '.join(tla_str(k) for k in sorted(schemes) if '@' in k))
+        f.write('LowLevelKeV == %s\n' % ('\n  @@ '.join('%s :> %d' % (tla_str(k), s['level']) for k, s in sorted(schemes.items()) if '@' in k)))
         f.write('=============================================================================\n')
     with open(need[3], 'w') as f:
         f.write('------------------------------ MODULE DbdTable ------------------------------\n')
